@@ -824,8 +824,10 @@ def run(chk, pid):
                 "BTS capture; observed: " + RULES[pid] + "; non-trivial = at least one successful mutation and (>= 2 live "
                 "blocks at some point or a rejected call)")
     BATCH = 400
+    seen_init = {}
     for k in range(0, len(specs), BATCH):
         cases = run_cases(chk, specs[k:k + BATCH], want_acc)
+        premise_of_theorems(chk, cases, seen_init)
         for c in cases:
             flat = [o for ctx in c.contexts for o in ctx]
             if pid == "C09":
@@ -896,6 +898,37 @@ def control_violation(chk, c):
         if s1["mem"] != s2["mem"]:
             return "after %s Tdf.entries differs from what the same history gives without the refused call(s)" % container.op_label(flat[i]), i
     return None
+
+
+NOT_ORDERED_STRATA = ("gap in the table", "F3b-unused-offset-zero finding", "lazy foreign writer", "unterminated comment field",
+                      "unused slots pointing at a free region between live blocks")
+
+
+def premise_of_theorems(chk, cases, seen):
+    """the container theorems speak about ORDERED initial files (GFile.v; packed files are a special case).  Coq's own
+    decision procedure [orderedb] (sound by C03_orderedb_sound) is evaluated on every distinct initial file: the
+    evidence says for how many histories the theorems' premise holds; the other strata are covered by the
+    statement-by-statement model and the oracles only."""
+    todo = []
+    for c in cases:
+        key = hashlib.sha1(c.init["raw"]).hexdigest()
+        if key not in seen and len(c.init["raw"]) < 300000:
+            seen[key] = None
+            todo.append((key, c))
+    if todo:
+        res = common.run_model([(48, container.model_state(c.init)) for _, c in todo])
+        for (key, c), r in zip(todo, res):
+            seen[key] = (r == [0, 1])
+    for c in cases:
+        key = hashlib.sha1(c.init["raw"]).hexdigest()
+        v = seen.get(key)
+        if v is None:
+            chk.count("premise: initial file too large for orderedb (not evaluated)")
+            continue
+        chk.count("premise: initial file is %s (Coq orderedb)" % ("ordered" if v else "sound but NOT ordered: outside the theorems"))
+        if not v and c.stratum not in NOT_ORDERED_STRATA and not c.stratum.startswith("replay"):
+            raise RuntimeError("stratum %r starts from a file Coq's orderedb rejects (%s): the generator claims more than it delivers"
+                               % (c.stratum, c.desc))
 
 
 def check_compactb(chk, c):
